@@ -64,6 +64,48 @@ def check_query_case(ctx, ast, doc, text, cls, *, extra=None, env=None, nontrivi
     return True
 
 
+_ENVS = []
+
+
+def equivalent_envs():
+    """Configurations under which standard queries must mean exactly the same: a fresh
+    environment, caching off, documented hooks overridden by pass-through subclasses, a custom
+    match class, an instance whose flags were assigned after construction."""
+    if _ENVS:
+        return _ENVS
+    import jsonpath
+
+    class Hooked(jsonpath.JSONPathEnvironment):
+        calls = 0
+
+        def getitem(self, obj, key):
+            Hooked.calls += 1
+            return super().getitem(obj, key)
+
+        async def getitem_async(self, obj, key):
+            return await super().getitem_async(obj, key)
+
+        def compare(self, left, operator, right):
+            return super().compare(left, operator, right)
+
+        def is_truthy(self, obj):
+            return super().is_truthy(obj)
+
+    class MyMatch(jsonpath.JSONPathMatch):
+        pass
+
+    class CustomMatch(jsonpath.JSONPathEnvironment):
+        match_class = MyMatch
+
+    late = jsonpath.JSONPathEnvironment(filter_caching=False)
+    late.filter_caching = True
+    _ENVS.extend([
+        ("default", jsonpath.DEFAULT_ENV), ("fresh", jsonpath.JSONPathEnvironment()), ("no-caching", jsonpath.JSONPathEnvironment(filter_caching=False)),
+        ("pass-through-hooks", Hooked()), ("custom-match-class", CustomMatch()), ("caching-switched-on-later", late),
+    ])
+    return _ENVS
+
+
 def fold_model(comp, doc, extra=None):
     """Reference result of a compound query [q0, [op, q1], ...]: union = left then right,
     intersection = left restricted to values the right also produces, left to right."""
